@@ -250,6 +250,12 @@ impl<'m> MCTPSMBusContext<'m> {
         &self,
         packet: &'a [u8],
     ) -> Result<ControlDecodedPacketData<'a>, (MessageType, DecodeError)> {
+        // We need at least the SMBus header, the transport header, the
+        // message type and the PEC
+        if packet.len() < 10 {
+            return Err((MessageType::Invalid, DecodeError::Unknown));
+        }
+
         let (smbus_header, base_header, body_header) = self.get_smbus_headers(packet)?;
 
         let calculated_pec = pec(&packet[0..(packet.len() - 1)]);
@@ -364,6 +370,14 @@ impl<'m> MCTPSMBusContext<'m> {
         packet: &'a [u8],
         calculated_pec: u8,
     ) -> Result<ControlRawPacketData<'a, 'b>, (MessageType, DecodeError)> {
+        // We need at least the control message header and the PEC
+        if packet.len() < 3 {
+            return Err((
+                MessageType::MCtpControl,
+                DecodeError::ControlMessage(ControlMessageError::InvalidControlHeader),
+            ));
+        }
+
         // Decode the header
         let mut control_message_header_buf: [u8; 2] = [0; 2];
         control_message_header_buf.copy_from_slice(&packet[0..2]);
@@ -377,7 +391,14 @@ impl<'m> MCTPSMBusContext<'m> {
                     (2, None, control_message_header.get_request_data_len())
                 }
                 0 => {
-                    // Response
+                    // Response, there must be a completion code before the PEC
+                    if packet.len() < 4 {
+                        return Err((
+                            MessageType::MCtpControl,
+                            DecodeError::ControlMessage(ControlMessageError::InvalidControlHeader),
+                        ));
+                    }
+
                     if packet[2] != CompletionCode::Success as u8 {
                         return Err((
                             MessageType::MCtpControl,
